@@ -95,6 +95,9 @@ THEOREMS = {
                      "Abnf.sub_sound", "Abnf.equiv_pairsF", "Abnf.RTree.lookup_eq", "Abnf.maskT_sound", "Abnf.C09.tree_wf", "Abnf.C09.ref_tree_wf",
                      "Abnf.C09.pairs_cover", "Abnf.C09.fwd_all", "Abnf.C09.bwd_all", "Abnf.C09.compiled_equiv_text",
                      "Abnf.C09.flags_as_documented", "Abnf.C09.plain_reach", "Abnf.C09.bundled_engine_exact_wrt_text"],
+        # stricter than the property (structural equality of compiled table and text reading): reported, not a verdict
+        "supplementary_modules": ["Abnf.Theorems.C09Struct"],
+        "supplementary_theorems": ["Abnf.lparse_sim", "Abnf.C09.sim_all", "Abnf.C09.compiled_engine_equals_text_engine"],
     },
     "C15": {
         "modules": ["Abnf.Theorems.C15", "Abnf.Obligations.BundledFacts"],
